@@ -61,11 +61,32 @@ def place(pos, kw, names):
     return out
 
 
+def module_funcs(ctx, rel, cls=None, exclude=()):
+    """{dotted call name: FunctionDef} for the module-level functions of `rel` (called by bare name) and, with `cls`, the methods of that
+    class (called as self.name): the table `Sem(..., inline=...)` needs to follow helpers defined in the same module"""
+    m = ctx.src.mod(rel)
+    out = {}
+    for q, f in m.funcs.items():
+        if "#" in q:
+            continue
+        if "." not in q:
+            if q not in exclude:
+                out[q] = f
+        elif cls and q.startswith(cls + ".") and q.count(".") == 1:
+            nm = q.split(".", 1)[1]
+            if nm not in exclude and not (nm.startswith("__") and nm.endswith("__")):
+                out["self." + nm] = f
+    return out
+
+
 class Sem:
-    def __init__(self, ctx, fn, cond=None, pinned=None, call=None, binop=None, env=None, run=True, subscript=None):
+    def __init__(self, ctx, fn, cond=None, pinned=None, call=None, binop=None, env=None, run=True, subscript=None, inline=None, erase_T=False):
         self.ctx = ctx
         self.fn = fn
         self.ev = AutoEvaluator(fn, src=ctx.src, cond=cond, pinned=pinned, call=call, binop=binop, env=env, subscript=subscript)
+        if inline:
+            self.ev.inline = {k: v for k, v in inline.items() if v is not fn}
+        self.ev.erase_T = erase_T
         if run:
             body = fn.body
             self.ev.run(body)
